@@ -16,7 +16,7 @@ from .. import automodel as am
 from ..monitors import EvalTracer
 
 glom = env.bind()
-from glom import T, SKIP, STOP, GlomError, Coalesce, glom as G  # noqa: E402
+from glom import T, SKIP, STOP, GlomError, Coalesce, Pipe, Spec, glom as G  # noqa: E402
 
 META = {
     'level': 'exploration',
@@ -404,6 +404,81 @@ def coalesce_default_comes_last_and_container_subclass_constants_pass_through(co
                               '%s with the constant %r: %r, expected %r' % (sname, c, got, w), None)
 
 
+class _LazyRecord:
+    """attribute object whose accessors fail in ways of their own (a computed ratio dividing by zero, a lazily loaded field that cannot
+    be loaded)"""
+    def __init__(self, hits, total):
+        self.hits, self.total = hits, total
+
+    @property
+    def ratio(self):
+        return self.hits // self.total
+
+    @property
+    def blob(self):
+        raise RuntimeError('backend unavailable')
+
+
+class _StrictDict(dict):
+    def __missing__(self, key):
+        raise _ConfigError('no setting %r' % (key,))
+
+
+class _ConfigError(Exception):
+    pass
+
+
+def type_directed_targets(col):
+    """the restructuring laws on targets whose ACCESS and ITERATION are type-directed: (1) a dotted-string / Path alternative of a
+    Coalesce whose accessor raises an error of its own kind (ZeroDivisionError of a property, RuntimeError of a lazy field, a dict
+    subclass whose __missing__ raises a custom class) is a failed access like any other - the Coalesce goes on to the next
+    alternative / its default, also as list element (default=SKIP), dict value and chain step; (2) a list spec iterates its target
+    with the handler registered for the type at the time of THE call: a registration (exact or not) made after earlier calls
+    counts"""
+    from glom import Glommer, Path
+    rec = lambda: _LazyRecord(3, 0)
+    cases = [
+        ('property raising ZeroDivisionError', rec, lambda: Coalesce('ratio', 'hits'), 3),
+        ('property raising RuntimeError', rec, lambda: Coalesce('blob', Path('blob', 'x'), default='n/a'), 'n/a'),
+        ('nested path through the failing property', lambda: {'r': rec()}, lambda: Coalesce('r.ratio.real', 'r.hits'), 3),
+        ('dict subclass with a raising __missing__', lambda: _StrictDict(a=1), lambda: Coalesce('zz', 'a'), 1),
+        ('as list element with default=SKIP', lambda: [_LazyRecord(4, 2), _LazyRecord(1, 0), _LazyRecord(9, 3)], lambda: [Coalesce('ratio', default=SKIP)], [2, 3]),
+        ('as dict value', rec, lambda: {'ratio': Coalesce('ratio', default=None), 'hits': 'hits'}, {'ratio': None, 'hits': 3}),
+        ('as chain step', lambda: {'r': rec()}, lambda: ('r', Coalesce('blob', 'total'), lambda v: v + 1), 1),
+        ('inside Spec inside Pipe', lambda: {'r': rec()}, lambda: Pipe('r', Spec(Coalesce('ratio', 'total'))), 0),
+    ]
+    for desc, mk_t, mk_s, want in cases:
+        spec = mk_s()
+        for n in (1, 2):
+            got = call(G, mk_t(), spec)
+            col.case(('type-directed', desc, n), True)
+            col.count('glom_evaluations')
+            col.count('type_directed_target_cases')
+            if not got.ok or got.value != want:
+                col.violation('C03/coalesce-does-not-skip-a-failed-string-path', '%s: %s (evaluation #%d): %r, expected %r' % (desc, short(spec), n, got, want), None)
+                break
+    for exact in (False, True):
+        for warm in (True, False):
+            class Rows:
+                def __init__(self, *items):
+                    self.items = items
+
+                def __iter__(self):
+                    return iter(self.items)
+            g = Glommer()
+            spec = {'rows': ('table', [lambda x: x * 10]), 'n': ('table', 'items', len)}
+            t = lambda: {'table': Rows(1, 2, 3)}
+            first = call(g.glom, t(), spec) if warm else None
+            g.register(Rows, iterate=lambda r: iter(reversed(r.items)), exact=exact)
+            got = call(g.glom, t(), spec)
+            col.case(('type-directed', 'registration-after-use', exact, warm), True)
+            col.count('glom_evaluations')
+            col.count('type_directed_target_cases')
+            if (warm and (not first.ok or first.value != {'rows': [10, 20, 30], 'n': 3})) or not got.ok or got.value != {'rows': [30, 20, 10], 'n': 3}:
+                col.violation('C03/list-spec-ignores-the-iteration-registered-for-the-type', 'Glommer: %sregister(Rows, iterate=reversed%s), then %r: %r (before: %r)'
+                              % ('one call, then ' if warm else '', ', exact=True' if exact else '', spec, got, first), None)
+
+
 def run(ctx):
     col, rng = ctx.col, ctx.rng
     col.require('glom_evaluations', 1000)
@@ -418,6 +493,7 @@ def run(ctx):
             literal_defaults_and_arguments_are_per_evaluation(col)
             list_spec_is_lazy_and_call_parts_go_left_to_right(col)
             coalesce_default_comes_last_and_container_subclass_constants_pass_through(col)
+            type_directed_targets(col)
         for i in range(ctx.n(30000, 120000)):
             one_case(col, rng, tracer)
     finally:
